@@ -210,7 +210,7 @@ def run(chk, binary):
             elif verb.startswith("ReplaceCharInplace"):
                 cb = clusters(before, prev["fresh"]) if before == prev["buf"] else None
                 ca = clusters(after, st["fresh"]) if after == st["buf"] else None
-                if cb is not None and ca is not None and len(cb) != len(ca) and "\n" not in "".join(cb[c["c0"]:c["c0"] + 1]):
+                if cb is not None and ca is not None and len(cb) != len(ca):
                     chk.violation("spec:r changed the number of characters", dict(case0, before=before, after=after))
         if cls == "insert":
             typed = cmd[1:-5]
